@@ -273,9 +273,16 @@ func getAPI(k apiKey) *apifu.API {
 		apis[k] = a
 		return a
 	}
+	// every generic connection also implements a ConnectionInterface; requests may select through it
+	iface := apifu.ConnectionInterface(&apifu.ConnectionInterfaceConfig{
+		NamePrefix:    "Iface",
+		EdgeFields:    map[string]*graphql.FieldDefinition{"node": {Type: graphql.IntType}},
+		HasTotalCount: true,
+	})
 	cc := &apifu.ConnectionConfig{
-		NamePrefix: "Thing",
-		Direction:  apifu.ConnectionDirection(k.dir),
+		NamePrefix:            "Thing",
+		ImplementedInterfaces: []*graphql.InterfaceType{iface},
+		Direction:             apifu.ConnectionDirection(k.dir),
 		CursorType: cursorType(k.kind),
 		EdgeCursor: func(edge interface{}) interface{} { return edge.(edgeT).Key },
 		EdgeFields: edgeFields,
@@ -380,6 +387,7 @@ type request struct {
 	first, last   countArg
 	after, before cursorArg
 	sel           selection
+	iface         bool // select everything through fragments on the ConnectionInterface / its edge interface
 }
 
 func (q request) document() (string, map[string]interface{}) {
@@ -408,7 +416,9 @@ func (q request) document() (string, map[string]interface{}) {
 	curArg("after", q.after)
 	curArg("before", q.before)
 	var sel []string
-	if q.sel.edges {
+	if q.sel.edges && q.iface {
+		sel = append(sel, "edges { ... on IfaceEdge { cursor node } }")
+	} else if q.sel.edges {
 		sel = append(sel, "edges { cursor node }")
 	}
 	if q.sel.pageInfo {
@@ -424,6 +434,9 @@ func (q request) document() (string, map[string]interface{}) {
 	a := ""
 	if len(args) > 0 {
 		a = "(" + strings.Join(args, ", ") + ")"
+	}
+	if q.iface {
+		return d + " { connection" + a + " { ... on IfaceConnection { " + strings.Join(sel, " ") + " } } }", vars
 	}
 	return d + " { connection" + a + " { " + strings.Join(sel, " ") + " } }", vars
 }
@@ -608,8 +621,12 @@ func reqFields(q request, calls []sexp.Node, o observed) []sexp.Node {
 func connCase(s setup, q request, r *rng.R) sexp.Node {
 	api := getAPI(s.key)
 	cur = s.world(r)
+	if !s.key.timeconn && r.Chance(1, 5) {
+		q.iface = true
+	}
 	o := serve(api, q)
 	fields := append(s.header(), reqFields(q, cur.recordedCalls(s.key, q), o)...)
+	fields = append(fields, sexp.T("via-interface", sexp.Bool(q.iface)))
 	fields = append(fields, sexp.T("cursors", cursorTable(s.key.kind, o.emitted)))
 	return sexp.T("conn", fields...)
 }
@@ -1453,21 +1470,54 @@ func main() {
 				return connCase(setup{key: key, edges: es, policy: r.Intn(5)}, q, r)
 			})
 		}
-		nLong := 24
+		// every placement of unserialisable cursors among three edges (start / middle / end of the
+		// page), every count, forwards and backwards: the start cursor fails, only the end cursor
+		// fails, only an edge in the middle fails (visible only when its cursor is selected)
+		longKey := func(j int, long bool) string {
+			k := fmt.Sprintf("%c", 'a'+j)
+			if long {
+				k += strings.Repeat("L", 50000)
+			}
+			return k
+		}
+		for _, key := range []apiKey{{kind: "str", all: true}, {kind: "str", promise: true}} {
+			for pat := 1; pat < 8; pat++ {
+				for c := 1; c <= 3; c++ {
+					for _, fwd := range []bool{true, false} {
+						for _, sel := range []selection{fullSel, {true, false, false}, {false, true, false}} {
+							key, pat, c, fwd, sel := key, pat, c, fwd, sel
+							if sel != fullSel && c == 2 {
+								continue
+							}
+							h.Case(func(r *rng.R) sexp.Node {
+								es := make([]edgeT, 3)
+								for j := range es {
+									es[j] = edgeT{Key: longKey(j, pat&(1<<uint(j)) != 0), Node: j}
+								}
+								q := request{sel: sel}
+								if fwd {
+									q.first = val(c)
+								} else {
+									q.last = val(c)
+								}
+								return connCase(setup{key: key, edges: shuffle(r, es), policy: r.Intn(5)}, q, r)
+							})
+						}
+					}
+				}
+			}
+		}
+		nLong := 8
 		if h.Thorough() {
 			nLong = 400
 		}
 		for i := 0; i < nLong; i++ {
 			key := allKeys("str")[i%4]
 			h.Case(func(r *rng.R) sexp.Node {
-				// 3..5 edges; each cursor short or 50000 bytes long (then it cannot be serialised)
 				n := 3 + r.Intn(3)
 				es := make([]edgeT, n)
 				for j := range es {
-					es[j] = edgeT{Key: fmt.Sprintf("%c", 'a'+j), Node: j}
-					if r.Chance(1, 3) {
-						es[j].Key = es[j].Key.(string) + strings.Repeat("L", 50000)
-					}
+					es[j] = edgeT{Key: longKey(j, r.Chance(1, 3)), Node: j}
 				}
 				q := request{sel: rng.Pick(r, selections)}
 				if r.Bool() {
